@@ -22,6 +22,7 @@ def run(ctx):
     refgraph.rule_connect_sequence(ctx, "C02.connect_disconnect_order")
     refgraph.rule_removal_helpers(ctx, "C02.removal_helpers")
     refgraph.rule_backreference_keys(ctx, "C02.backreference_keys", prod)
+    refgraph.rule_group_merge_mentions(ctx, "C02.group_merge_mentions")
     ctx.assume("lines found in the state (fields, back-references) of an "
                "element of X's back-reference list may be X itself (shape "
                "invariant of the reference graph used by the ITER rule)")
